@@ -229,7 +229,7 @@ def real_kill(args):
         shutil.rmtree(top, ignore_errors=True)
 
 
-def same_lab_dump(storage_dir: str, kind: str, n: int, k: int):
+def same_lab_dump(storage_dir: str, kind: str, n: int, k: int, look: bool = True):
     """Isolated interpreter, ONE Lab object (fork backend): cache the task, re-run it with
     bust_cache while its worker kills itself at the k-th line of the save, then ask the same Lab."""
     import labtech
@@ -239,8 +239,10 @@ def same_lab_dump(storage_dir: str, kind: str, n: int, k: int):
     t = A.KSaver(kind=kind, n=n)
     r1 = lab.run_tasks([t], disable_progress=True, disable_top=True)
     # the caller looks at the cache between the runs (any answer remembered inside the Lab is now stale-able)
-    seen_before = [bool(lab.is_cached(t)), any(x == t for x in lab.cached_tasks([A.KSaver]))]
-    r1b = lab.run_tasks([A.KSaver(kind=kind, n=n)], disable_progress=True, disable_top=True)
+    # (look=False: or does not - then what the first run left in the parent's Lab / storage objects, which
+    # never saw the save that happened in the worker, is all that the second run starts from)
+    seen_before = [bool(lab.is_cached(t)), any(x == t for x in lab.cached_tasks([A.KSaver]))] if look else [True]
+    r1b = lab.run_tasks([A.KSaver(kind=kind, n=n)], disable_progress=True, disable_top=True) if look else [None]
     lab.context['epoch'] = 2
     lab.context['kill_at'] = k
     r2 = lab.run_tasks([t], bust_cache=True, disable_progress=True, disable_top=True)
@@ -278,13 +280,14 @@ def same_lab_dump(storage_dir: str, kind: str, n: int, k: int):
 
 
 def same_lab_case(args):
-    kind, n, k = args
+    kind, n, k = args[:3]
+    look = not (len(args) > 3 and args[3] == 'nolook')
     from ..realrun import py_env, run_isolated
     tmp = tmpdir('c13l_')
     try:
-        rc, so, se = run_isolated([sys.executable, '-m', 'verif_lt.props.c13', '--same-lab', os.path.join(tmp, 'st'), kind, str(n), str(k)],
+        rc, so, se = run_isolated([sys.executable, '-m', 'verif_lt.props.c13', '--same-lab', os.path.join(tmp, 'st'), kind, str(n), str(k), '1' if look else '0'],
                                   env=py_env(0), timeout=180)
-        d = f'KSaver({kind},{n}) one Lab object (fork backend): cached, then bust_cache re-run whose worker is SIGKILLed at save line #{k}'
+        d = f'KSaver({kind},{n}) one Lab object (fork backend): cached{"" if look else " (the caller does not look at the cache in between)"}, then bust_cache re-run whose worker is SIGKILLed at save line #{k}'
         if rc != 0:
             return [('same-lab-run-failed:overwrite', f'{d}: exited {rc}: {se[-400:]}')], False
         o = json.loads(so.strip().splitlines()[-1])
@@ -547,6 +550,7 @@ def run(tier: str, seed: int) -> Result:
                 for k in ks:
                     kills.append((case, ow, k))
         n_kills = validated = 0
+        deferred_error = None
         for (case, ow, k), (killed, state, res) in zip(kills, pmap_ordered(real_kill, kills)):
             if not killed:
                 continue
@@ -554,15 +558,16 @@ def run(tier: str, seed: int) -> Result:
             raw_ops, template = state_dirs[(case, ow)]
             if state_in_prefixes(state, raw_ops, template, ow):
                 validated += 1
-            elif not viols:
-                raise HarnessError(f'real SIGKILL of {case} (overwrite={ow}) at line #{k} left a state that is not a prefix of the raw-operation log')
+            elif not viols and deferred_error is None:
+                # (decided at the end: the histories below may still show what this tree does wrong)
+                deferred_error = f'real SIGKILL of {case} (overwrite={ow}) at line #{k} left a state that is not a prefix of the raw-operation log'
             for key, msg in res:
                 viols.append(Violation('C13', key, msg, {'tier': tier, 'clause': key, 'msg': msg}, size=k))
         # one Lab object surviving a worker killed mid-overwrite (real fork backend)
         nl = count_lines('pickle-small')
         ks = list(range(1, nl + 1)) if tier != 'quick' else list(range(1, nl + 1, 5))
         n_same = n_same_killed = 0
-        for res, killed in pmap(same_lab_case, [('small', 3, k) for k in ks] + ([('multi', 200, k) for k in ks] if tier != 'quick' else [])):
+        for res, killed in pmap(same_lab_case, [('small', 3, k) for k in ks] + [('small', 3, k, 'nolook') for k in range(1, nl + 1)] + ([('multi', 200, k) for k in ks] + [('multi', 200, k, 'nolook') for k in ks] if tier != 'quick' else [])):
             n_same += 1
             n_same_killed += 1 if killed else 0
             for key, msg in res:
@@ -598,7 +603,7 @@ def run(tier: str, seed: int) -> Result:
         'rule': ('crash states = every prefix of the raw-operation log (mkdir/open-trunc/write/close/unlink/rmdir/rename) of a real save + every subset of a run of unlinks in one directory + 3 torn variants per write + flushed variant per '
                  'Python-level write call; x {pickle small, json small, pickle multi-frame (+json multi thorough)} x {first save, overwrite; pickle small / multi also: save over a complete entry that another cache class with the same key prefix wrote, judged by observers of either class}; each materialised and '
                  'checked by the recovery oracle (is_cached, cached_tasks, run_tasks on a fresh Lab); real SIGKILLs of a forked saver at traced lines must leave one '
-                 'of the prefix states; plus histories on ONE Lab object over the real fork backend (cache, re-run with bust_cache whose worker SIGKILLs itself at save line k, then ask the same Lab), and the same history with a task type defined in the main script on the real spawn / fork backends; '
+                 'of the prefix states; plus histories on ONE Lab object over the real fork backend (cache, look at the cache through the Lab or not, re-run with bust_cache whose worker SIGKILLs itself at save line k, then ask the same Lab), and the same history with a task type defined in the main script on the real spawn / fork backends; '
                  'distinct_nontrivial = materialised crash states'),
         'samples': samples,
         'real_kills': n_kills,
@@ -607,6 +612,8 @@ def run(tier: str, seed: int) -> Result:
         'other_cache_class_histories_skipped': foreign_skipped,
         'exhaustive': True,
     }
+    if deferred_error is not None and not viols:
+        raise HarnessError(deferred_error)
     return Result('C13', 'fault_enumeration', cov, assumptions=[
         'process kills only (page cache survives): completed write() calls are durable, a write may be torn at any byte',
         'LocalStorage; the raw-operation log is validated by replaying it and by real SIGKILLs',
@@ -654,4 +661,4 @@ def replay(payload) -> int:
 
 if __name__ == '__main__':
     if len(sys.argv) >= 6 and sys.argv[1] == '--same-lab':
-        same_lab_dump(sys.argv[2], sys.argv[3], int(sys.argv[4]), int(sys.argv[5]))
+        same_lab_dump(sys.argv[2], sys.argv[3], int(sys.argv[4]), int(sys.argv[5]), look=(len(sys.argv) < 7 or sys.argv[6] == '1'))
